@@ -12,6 +12,7 @@ import (
 	"os"
 	"path/filepath"
 	"runtime/debug"
+	"runtime/pprof"
 	"strconv"
 	"time"
 
@@ -84,6 +85,12 @@ func runCheck(id, tier string) (code int) {
 		}
 	}()
 	t0 := time.Now()
+	if pf := os.Getenv("VERIF_PPROF"); pf != "" {
+		if f, err := os.Create(pf); err == nil {
+			_ = pprof.StartCPUProfile(f)
+			defer pprof.StopCPUProfile()
+		}
+	}
 	repo := core.RepoDir()
 	prog, err := core.Load(repo, "")
 	if err != nil {
